@@ -425,9 +425,9 @@ def all_strings(V, n):
 # automata / transducers / graphs
 
 STATE_POOLS = {
-    "int": [0, 1, 2, 3, 4, 5, 6],
-    "str": ["p", "q", "r", "s", "t", "u", "v"],
-    "tuple": [["s", 0], ["s", 1], ["s", 2], ["s", 3], ["s", 4], ["s", 5], ["s", 6]],
+    "int": list(range(10)),
+    "str": ["p", "q", "r", "s", "t", "u", "v", "w", "x", "y"],
+    "tuple": [["s", i] for i in range(10)],
 }
 FREE_W = ["1/2", "1/3", "2", "3", "5/7", "1", "1/4", "3/2"]
 
@@ -501,9 +501,9 @@ def automaton(draw, regime="QQ", max_states=4, max_arcs=8, alphabet=("a", "b"), 
 
 
 @st.composite
-def transducer(draw, regime="QQ", max_states=3, max_arcs=6, A=("a", "b"), B=("a", "b"), acyclic=False, boost=None):
+def transducer(draw, regime="QQ", max_states=3, max_arcs=6, A=("a", "b"), B=("a", "b"), acyclic=False, boost=None, min_states=1):
     lab = st.tuples(st.sampled_from(list(A) + [""]), st.sampled_from(list(B) + [""])).map(list)
-    m = draw(automaton(regime=regime, max_states=max_states, max_arcs=max_arcs, acyclic=acyclic, pool="int", boost=boost, labels=lab))
+    m = draw(automaton(regime=regime, max_states=max_states, max_arcs=max_arcs, acyclic=acyclic, pool="int", boost=boost, labels=lab, min_states=min_states))
     m["arcs"] = [[q, ab[0], ab[1], r, w] for q, ab, r, w in m["arcs"]]
     return m
 
